@@ -24,7 +24,7 @@ from .cdef import Contract, LoopSpec  # noqa: E402,F401
 
 SPEC_PRIM_NAMES = {'be', 'le', 'sl', 'cat', 'low', 'shr', 'pow2', 'tb', 'tl', 'bat', 'rpow', 'rpow2', 'bfind',
                    'band', 'bor', 'at', 'toreal', 'is_int_valued', 'decode', 'decodable', 'has_key', 'pv',
-                   'kind_of', 'raw_of', 'val_of', 'keys_of', 'append', 'cls_is', 'warned', 'i2r', 'src_T', 'src_R', 'coerce_like', 'coercible', 'comparable', 'cap'}
+                   'kind_of', 'raw_of', 'val_of', 'keys_of', 'append', 'cls_is', 'warned', 'i2r', 'src_T', 'src_R', 'coerce_like', 'coercible', 'comparable', 'cap', 'mset', 'mdel'}
 
 
 class Registry:
@@ -530,6 +530,36 @@ def capture_term(I, con_name, cname, cty, func_sv):
     return wrap_term(I, cty, acc(func_sv.extra['id']))
 
 
+def _pure_result(I, con, returns, coerced):
+    """the result of a function declared pure (no effects, a function of the VALUES of its arguments, e.g. a cached
+    property of an immutable bytes object): one SMT function application per call site, so that repeated calls on the
+    same value denote the same term"""
+    if returns not in ('int', 'bool', 'real', 'bytes', 'str') or con.modifies:
+        return None
+    terms = []
+    for pname in sorted(coerced):
+        v = coerced[pname]
+        if I.is_byteslike(v):
+            terms.append(I.as_bytes(v))
+        elif v.kind in ('int', 'bool', 'real', 'str'):
+            terms.append(v.t)
+        elif v.kind == 'rec':
+            terms.append(v.t)
+        elif v.kind == 'none':
+            continue
+        else:
+            return None
+    f = z3.Function('pure_' + con.target.replace('.', '_'), *([t.sort() for t in terms] + [TY.smt_sort(returns)]))
+    return SV(returns, f(*terms))
+
+
+def _raise_payload(con, exc, sf):
+    """attributes of the exception object that the contract ties to arguments (ghost['raise_payload'][exc] = {attribute:
+    parameter}); the callee's own proof carries the matching obligation"""
+    spec = con.ghost.get('raise_payload', {}).get(exc, {})
+    return {attr: sf.vars[pname] for attr, pname in spec.items()}
+
+
 def apply_contract(I, con, args, kwargs, node, clo=None, constructing=None, result_builder=None, func_sv=None):
     """Replace a call by the callee's contract."""
     caller = I.fname
@@ -596,18 +626,18 @@ def apply_contract(I, con, args, kwargs, node, clo=None, constructing=None, resu
     for exc, cond in raises.items():
         c = eval_spec(I, cond, sf, f"{callee} raises[{exc}]")
         if I.path.decide(c):
-            raise SymRaise(exc, {}, f"call {callee} line {getattr(node, 'lineno', '?')}")
+            raise SymRaise(exc, _raise_payload(con, exc, sf), f"call {callee} line {getattr(node, 'lineno', '?')}")
     for exc, cond in may_raise.items():
         c = eval_spec(I, cond, sf, f"{callee} may_raise[{exc}]")
         m = z3.Bool(I.path.fresh_name(f"mayraise_{exc}"))
         if I.path.decide(z3.And(c, m)):
-            raise SymRaise(exc, {}, f"call {callee} line {getattr(node, 'lineno', '?')}")
+            raise SymRaise(exc, _raise_payload(con, exc, sf), f"call {callee} line {getattr(node, 'lineno', '?')}")
     # effects
     for loc in con.modifies:
         havoc_location(I, loc, sf)
     saved_old, saved_map = I.in_old, I.old_map
     I.old_map = snap
-    if con.yields or con.final:
+    if con.yields or (con.final and any(isinstance(n_, (ast.Yield, ast.YieldFrom)) for n_ in ast.walk(fn_node))):
         # a generator under contract: the caller sees the list of everything it yields, constrained by the
         # generator's exhaustion clauses (`final`); the source is consumed
         saved_gd = I.ghost_defs
@@ -622,7 +652,7 @@ def apply_contract(I, con, args, kwargs, node, clo=None, constructing=None, resu
             saved_y = I.path.yielded
             I.path.yielded = out
             sf.vars['out'] = out
-            for name, e in list(ensures.items()) + list(con.final.items()):
+            for name, e in list(ensures.items()) + list(con._filter(con.final, None).items()):
                 I.path.assume(eval_spec(I, e, sf, f"{callee} final[{name}]"))
             add_hints(I, con.hints, sf)
             I.path.yielded = saved_y
@@ -635,8 +665,12 @@ def apply_contract(I, con, args, kwargs, node, clo=None, constructing=None, resu
             res = result_builder(sf.vars.get('value'), None)
         elif returns is None or returns == 'none':
             res = NONE
+        elif isinstance(returns, tuple) and returns[0] == 'arg':
+            res = sf.vars[returns[1]]          # the (modified) argument object itself
         else:
-            res = I.fresh(_thaw(returns) if not isinstance(returns, str) else returns, 'ret_' + callee.split('.')[-1])
+            res = _pure_result(I, con, returns, coerced) if con.pure else None
+            if res is None:
+                res = I.fresh(_thaw(returns) if not isinstance(returns, str) else returns, 'ret_' + callee.split('.')[-1])
         sf.vars['result'] = res
         for name, e in ensures.items():
             I.path.assume(eval_spec(I, e, sf, f"{callee} ensures[{name}]"))
